@@ -11,7 +11,7 @@ ID = "C05"
 RULE = (
     "cases: (fanin/fanout) lint-clean circuit specs with gates of every type at fan-in 1..7 and fan-out "
     "0..7, optional blackbox instances, k in 2..5 (and k<2 must raise ValueError); (regs) blackbox-free "
-    "acyclic circuits with num_stages 1..3 chosen so that depth >= num_stages+1; (unroll) blackbox-free "
+    "acyclic circuits with num_stages 1..8 chosen so that round(depth/(num_stages+1)) >= 1 (num_stages <= 2*depth-2; mostly depth >= num_stages+1); (unroll) blackbox-free "
     "acyclic circuits. Oracle: same inputs/outputs/blackbox registry, max fan-in (fan-out) <= k, every "
     "original node has the same truth table (reference simulation of both circuits over all valuations "
     "of the free nodes, <= 10, else 64 drawn), result lint-clean; insert_registers: every new blackbox "
@@ -23,7 +23,7 @@ RULE = (
 ASSUMPTIONS = [
     "reference simulator cgv.refsim",
     "benign names (no clash with *_limit_fanin_*, *_cg_insert_reg_q_*, clk, ff_*)",
-    "num_stages restricted to depth >= num_stages+1 (a stage boundary exists)",
+    "num_stages restricted to num_stages <= 2*depth-2 (the stage step round(depth/(num_stages+1)) is >= 1; outside that range the unchanged code raises)",
 ]
 EXHAUSTIVE_NOTE = "core: each n-ary type x fan-in 3..7 x k 2..5 single-gate circuits with full truth tables; fan-out 3..7 x k 2..5 star circuits"
 EXAMPLES = {"quick": 1200, "thorough": 25000}
@@ -98,7 +98,8 @@ def _case(draw, ctx):
         d = _depth(spec)
         if d < 2:
             return {"op": "unroll", "spec": spec, "tables": tables}
-        stages = draw(st.integers(1, min(3, d - 1)))
+        # accepted stage counts: the stage step round(depth / (num_stages + 1)) must be at least 1
+        stages = draw(st.integers(1, min(3, d - 1))) if draw(st.integers(0, 2)) else draw(st.integers(1, min(8, 2 * d - 2)))
         variant = draw(st.sampled_from(["default", "default", "clk_exists", "no_side_pins"]))
         if variant == "clk_exists":
             # the design already has a node called clk (a gate, or an input that is also an output)
